@@ -35,7 +35,7 @@ V_CONTRACT
 void *m_mem_new(size_t size, m_ref_dtor dtor)
 V_REQUIRES(size == sizeof(ps_priv_t))      /* the only allocation in this unit: a message copy (constant size keeps the fresh object concrete) */
 V_ASSIGNS(g.memnew_calls, g.memnew_ret)
-V_ENSURES(g.memnew_calls == V_OLD(g.memnew_calls) + 1 && g.memnew_ret == V_RET && (V_RET == NULL ? g_alloc_fails : (!g_alloc_fails && __CPROVER_is_fresh(V_RET, sizeof(ps_priv_t)))))
+V_ENSURES(g.memnew_calls == V_OLD(g.memnew_calls) + 1 && (g_alloc_fails ? V_RET == NULL : __CPROVER_is_fresh(V_RET, sizeof(ps_priv_t))) && __CPROVER_pointer_equals(g.memnew_ret, V_RET))
 ;
 /* the recipient's message pipe: a write of one pointer either is accepted (appended at the tail of the ghost pipe) or fails (pipe full) */
 V_CONTRACT
